@@ -193,3 +193,119 @@ contract(T4 + 'Type4Tag.NDEF._discover_ndef', 'C01',
                   ('O-discover.file', 'self._ndef_file == self._tag._dep.cc[9:11]'),
                   ('O-discover.no-write', 'self._tag._dep.writes == 0')],
          raises={})
+
+# ---------------------------------------------------------------- Type 2 (write path, layouts whose reserved
+# range does not touch the NDEF TLV: lock/reserved octets before the TLV or behind the data area)
+T2 = 'nfc.tag.tt2:'
+T2W = 'nfc.tag.tt2.Type2Tag.NDEF._write_ndef_data'
+
+
+def t2_setup(ex, env):
+    from pyvc.values import SSet
+    img = env['self'].fields['_tag_memory']
+    st = SSet()
+    st.ranges.append((img.fields['a'], img.fields['b']))
+    env['self'].fields['_skip_bytes'] = st
+
+
+IMG = 'self._tag_memory'
+for prop in ('C01', 'C03'):      # C02 for Type 2 stays a bounded stand-in: the cut-point queries over
+    # img[0:4j] + mem[4j:] with a symbolic j did not discharge within the budget (DESIGN A.4)
+    ens = {'C01': [('O-write.view', 'view_is(t12_view(%s.mem, %s.off, %s.end, %s.a, %s.b), old(bytes(data)))'
+                                    % ((IMG,) * 5)),
+                   ('O-write.flushed', '%s.mem == %s.img' % (IMG, IMG))],
+           'C02': [('O-cut.final', 'cut_ok(t12_view(%s.mem, %s.off, %s.end, %s.a, %s.b), '
+                                   't12_view(%s.mem0, %s.off, %s.end, %s.a, %s.b), old(bytes(data)))' % ((IMG,) * 10))],
+           'C03': [('O-frame.before', '%s.mem[0:%s.off + 1] == %s.mem0[0:%s.off + 1]' % ((IMG,) * 4)),
+                   ('O-frame.behind', '%s.mem[%s.end:] == %s.mem0[%s.end:]' % ((IMG,) * 4))]}[prop]
+    contract(T2 + 'Type2Tag.NDEF._write_ndef_data', prop,
+             dict(self=Obj(T2 + 'Type2Tag.NDEF', _partial=False, _data=None, _capacity=Int(0, None), _readable=True,
+                           _writeable=True, _tag=None, _ndef_tlv_offset=Int(16, 2060), _skip_bytes=None,
+                           _tag_memory=Obj('models.tag_models:TagImage', _partial=False, img=Bytes(64, None),
+                                           mem=Ref('self._tag_memory.img'), mem0=Ref('self._tag_memory.img'),
+                                           off=Ref('self._ndef_tlv_offset'), end=Int(16, 2056), a=Int(0, 0x80000),
+                                           b=Int(0, 0x80000), unit=4, goal=Ref('data'), syncs=0,
+                                           check_cut=(prop == 'C02'))),
+                  data=Bytes(0, None, mutable=True)),
+             name='%s/tt2._write_ndef_data' % prop, setup=t2_setup,
+             requires=['%s.end == %s.img[14] * 8 + 16 and %s.end <= len(%s.img)' % ((IMG,) * 4),
+                       'len(%s.img) %% 4 == 0' % IMG,
+                       't12_view(%s.img, %s.off, %s.end, %s.a, %s.b) != NO_NDEF' % ((IMG,) * 5),
+                       # the reserved range does not touch the NDEF TLV
+                       '%s.a >= %s.b or %s.b <= %s.off or %s.a >= %s.end' % ((IMG,) * 6),
+                       # the message fits: capacity as the reader computed it
+                       'len(data) + (2 if len(data) < 255 else 4) <= %s.end - %s.off' % (IMG, IMG)],
+             ensures=ens, raises={},
+             loops={(T2W, 'For', 0): LoopSpec(
+                 entry={'_s': 'offset', '_c': 'bytes(self._tag_memory.img)'},
+                 invariant=['offset == _s', '%s.img == _c[0:_s] + bytes(data[0:_k]) + _c[_s + _k:]' % IMG,
+                            '%s.mem == _c' % IMG],
+                 havoc={'offset': Int(0, None), '%s.img' % IMG: '_c[0:_s] + bytes(data[0:_k]) + _c[_s + _k:]'}),
+                    (T2W, 'While', 0): LoopSpec(entry={'_o': 'offset'}, invariant=['offset == _o'],
+                                                 decreases='0x80000 - (offset + index)', havoc={'offset': Int(0, None)}),
+                    (T2W, 'While', 1): LoopSpec(entry={'_o': 'offset'},
+                                                 invariant=['offset == _o or offset > %s.end' % IMG],
+                                                 decreases='0x80000 - offset', havoc={'offset': Int(0, None)})},
+             # the reserved range does not touch the message area, so the skip jumps inside the data loop never run
+             idle_loops=['_write_ndef_data/loop:While0'])
+
+# ---------------------------------------------------------------- the real Type 2 memory reader refines TagImage
+# abstraction: img(self) = _data_in_cache + tag.mem[len(_data_in_cache):]; representation invariant RI: both
+# arrays have the same length (a multiple of 16), _data_from_tag is the tag memory prefix of that length
+RD = 'nfc.tag.tt2.Type2TagMemoryReader'
+RI = ['len(self._data_in_cache) == len(self._data_from_tag)', 'len(self._data_from_tag) % 16 == 0',
+      'len(self._data_from_tag) <= len(self._tag.mem)', 'len(self._tag.mem) % 16 == 0',
+      'self._data_from_tag == self._tag.mem[0:len(self._data_from_tag)]']
+IMGX = 'bytes(self._data_in_cache) + self._tag.mem[len(self._data_in_cache):]'
+RDR2 = lambda: Obj(T2 + 'Type2TagMemoryReader', _partial=False, _data_from_tag=Bytes(0, None, mutable=True),   # noqa
+                   _data_in_cache=Bytes(0, None, mutable=True),
+                   _tag=Obj('models.tag_models:T2PageTag', _partial=False, mem=Bytes(64, None), cur=Int(0, 255),
+                            writes=0))
+RLOOP = {(RD + '._read_from_tag', 'While', 0): LoopSpec(
+    entry={'_i0': IMGX, '_m0': 'self._tag.mem'},
+    invariant=RI + ['index == len(self._data_from_tag) or index == (len(self._data_from_tag) >> 4) << 4',
+                    '%s == _i0' % IMGX, 'self._tag.mem == _m0', 'stop <= len(self._tag.mem)'],
+    decreases='stop - index',
+    havoc={'index': Int(0, None), 'self._data_from_tag': Bytes(0, None, mutable=True),
+           'self._data_in_cache': Bytes(0, None, mutable=True), 'self._tag.cur': Int(0, 255)})}
+contract(T2 + 'Type2TagMemoryReader.__getitem__', 'C01', dict(self=RDR2(), key=Int(0, None)),
+         name='C01/tt2.reader.getitem', requires=RI + ['key < len(self._tag.mem)'],
+         ensures=[('O-refine.ri', ' and '.join('(%s)' % x for x in RI)),
+                  ('O-refine.result', 'result == old(%s)[key]' % IMGX),
+                  ('O-refine.image', '%s == old(%s)' % (IMGX, IMGX)),
+                  ('O-refine.no-write', 'self._tag.writes == 0 and self._tag.mem == old(self._tag.mem)')],
+         raises={}, loops=RLOOP)
+contract(T2 + 'Type2TagMemoryReader.__setitem__', 'C01', dict(self=RDR2(), key=Int(0, None), value=Byte()),
+         name='C01/tt2.reader.setitem', requires=RI + ['key < len(self._tag.mem)'],
+         ensures=[('O-refine.ri', ' and '.join('(%s)' % x for x in RI)),
+                  ('O-refine.image', '%s == old(%s)[0:key] + bytes([value]) + old(%s)[key + 1:]' % (IMGX, IMGX, IMGX)),
+                  ('O-refine.no-write', 'self._tag.writes == 0 and self._tag.mem == old(self._tag.mem)')],
+         raises={}, loops=RLOOP)
+contract(T2 + 'Type2TagMemoryReader.synchronize', 'C01', dict(self=RDR2()),
+         name='C01/tt2.reader.synchronize', requires=RI + ['len(self._tag.mem) <= 1024'],
+         ensures=[('O-refine.ri', ' and '.join('(%s)' % x for x in RI)),
+                  ('O-refine.flushed', 'self._tag.mem == old(%s)' % IMGX),
+                  ('O-refine.image', '%s == old(%s)' % (IMGX, IMGX))],
+         raises={},
+         loops={(RD + '._write_to_tag', 'While', 0): LoopSpec(
+             entry={'_S': 'self._tag.mem', '_C': 'bytes(self._data_in_cache)'},
+             # every state the tag goes through is cache[0:4j] + S[4j:] - the shape TagImage.synchronize() assumes
+             invariant=['index % 4 == 0 and index >= 0 and index <= stop + 3', 'stop == len(_C)',
+                        'bytes(self._data_in_cache) == _C', 'len(self._data_from_tag) == len(_C)',
+                        'self._tag.mem == _C[0:index] + _S[index:]',
+                        'self._data_from_tag == _C[0:index] + _S[index:len(_C)]', 'len(_C) % 16 == 0',
+                        'len(_C) <= len(_S)'],
+             decreases='stop - index',
+             havoc={'index': Int(0, None), 'self._tag.mem': '_C[0:index] + _S[index:]',
+                    'self._data_from_tag': 'bytearray(_C[0:index] + _S[index:len(_C)])',
+                    'self._tag.cur': Int(0, 255), 'self._tag.writes': Int(0, None)})})
+contract(T2 + 'Type2TagMemoryReader.__setitem__', 'C01',
+         dict(self=RDR2(), key=SliceOf(Int(0, None), Int(0, None)), value=Bytes(0, 8)),
+         name='C01/tt2.reader.setitem.slice',
+         requires=RI + ['key.start <= key.stop and key.stop <= len(self._tag.mem)', 'len(value) == key.stop - key.start',
+                        'len(self._tag.mem) <= 0x100000'],
+         ensures=[('O-refine.ri', ' and '.join('(%s)' % x for x in RI)),
+                  ('O-refine.image', '%s == old(%s)[0:key.start] + bytes(value) + old(%s)[key.stop:]'
+                                     % (IMGX, IMGX, IMGX)),
+                  ('O-refine.no-write', 'self._tag.writes == 0 and self._tag.mem == old(self._tag.mem)')],
+         raises={}, loops=RLOOP)
